@@ -30,6 +30,7 @@ MCDenyReserve ==
   ELSE CASE Topo = "rsvp" -> {"b1"} \cap {}     \* the reservation instances keep the ACL open on b1 (refresh path)
          [] Topo = "asn"  -> {"b3"}
          [] Topo = "conn" -> {"b2"}
+         [] Topo = "data" -> {"a1"}               \* only p2 reserves: the instance is about one circuit p1 -> p2
          [] OTHER -> {}
 MCDenyConnect ==
   IF ~ACLOn THEN {}
@@ -37,10 +38,15 @@ MCDenyConnect ==
          [] Topo = "rsvp" -> {<<"a2", "p3">>}
          [] OTHER -> {}
 
-St == [up |-> up, closed |-> closed, ph |-> ph, rsvp |-> rsvp, cons |-> cons, circ |-> circ,
-       tagR |-> tagR, tagH |-> tagH, svc |-> svc, att |-> att, gl |-> gl,
-       capsOK |-> Caps, tagsOK |-> TagsRollback]
-EmitEdge == PrintT(<<"VFEDGE", ToJson([s |-> St, op |-> op', t |-> St'])>>)
+\* compact positional projection (printing is the bottleneck of the replay runs):
+\* [up, closed, ph, rsvp, cons as peer -> <<rem, ip>>, circ, tagR, tagH, <<spans, msgs, sin, sout>>,
+\*  att as slot -> <<st, src, dst, via, ab, t, f, r, fd, rd>>, gl]
+StOf(u, cl, h, rs, co, ci, tr, th, sv, at, g) ==
+  <<u, cl, h, rs, [p \in Peers |-> <<co[p].rem, co[p].ip>>], ci, tr, th, <<sv.spans, sv.msgs, sv.sin, sv.sout>>,
+    [c \in Slots |-> <<at[c].st, at[c].src, at[c].dst, at[c].via, at[c].ab, at[c].t, at[c].f, at[c].r, at[c].fd, at[c].rd>>], g>>
+St == StOf(up, closed, ph, rsvp, cons, circ, tagR, tagH, svc, att, gl)
+StN == StOf(up', closed', ph', rsvp', cons', circ', tagR', tagH', svc', att', gl')
+EmitEdge == PrintT(<<"VFEDGE", ToJson([s |-> St, op |-> op', t |-> StN])>>)
 MCInit == Init /\ PrintT(<<"VFINIT", ToJson(St)>>)
        /\ PrintT(<<"VFCONF", ToJson([links |-> MCTopo, asn |-> MCASNOf, denyReserve |-> MCDenyReserve,
                                       denyConnect |-> MCDenyConnect])>>)
